@@ -32,7 +32,11 @@ def new_interp(prog, poll_budget=1, runtime='ActorRuntime'):
         def fn(I, st, f, args, fr):
             okv = None
             if name == 'pre_start':
-                okv = lambda I, st: Opaque('State', ident='the-state')
+                def okv(I, st):
+                    eff = getattr(I, 'pre_start_effect', None)
+                    if eff is not None:
+                        eff(I, st)
+                    return Opaque('State', ident='the-state')
             return I.ret(st, I.user_future(name, ok_value=okv))
         return fn
     for cb in CALLBACKS:
@@ -80,10 +84,10 @@ def new_interp(prog, poll_budget=1, runtime='ActorRuntime'):
         return I.ret(st, Opaque('boxed-error', info=args[0]))
 
     def chan_ident(I, st, o, value):
-        if o.oid == 'sup_supq':
+        if o.oid in ('sup_supq', 'obs_supq'):
             v = value
             var = v.variant if isinstance(v, Enum) else repr(v)
-            st.emit('SUPEVT', var, v.fields[1:] if isinstance(v, Enum) else ())
+            st.emit('SUPEVT', var, v.fields[1:] if isinstance(v, Enum) else (), o.oid[:-5])
             return {'ActorStarted': 1, 'ActorTerminated': 2, 'ActorFailed': 3}.get(var, 9)
         return 5
     I.hooks['chan_ident'] = chan_ident
@@ -93,7 +97,7 @@ def new_interp(prog, poll_budget=1, runtime='ActorRuntime'):
 class Actor:
     """one actor (cell 'a') with an optional supervisor (cell 's'); ports of 'a' are the symbolic-readiness objects of lifecycle.py"""
 
-    def __init__(self, prog, I, st, with_supervisor=True, sup_status=2, name=None):
+    def __init__(self, prog, I, st, with_supervisor=True, sup_status=2, name=None, observer=False):
         self.prog, self.I = prog, I
         pd = prog.crate.struct('ActorProperties')
         td = prog.crate.struct('SupervisionTree')
@@ -133,6 +137,10 @@ class Actor:
         self.sup_cell = None
         if with_supervisor:
             self.sup_cell, self.sup_pcell = mk_cell('sup', 2, sup_status, True)
+        self.obs_cell = None
+        if observer:
+            # a third, running actor that user code in pre_start may link this actor to
+            self.obs_cell, self.obs_pcell = mk_cell('obs', 3, 2, True)
         self.init_ports = lc.symbolic_ports(I, st, 'p0')
         self.ports = lc.portset_value(prog)
         self.actor_ref = Agg('ActorRef', (self.cell, Agg('PhantomData', ())))
@@ -162,6 +170,17 @@ class Actor:
     def supervisor_of_a(self, st):
         v = st.cells[st.ghost[('mutex_inner', 'a_supervisor')]]
         return v.variant == 'Some'
+
+    def link_to_observer(self, st):
+        """effect of `myself.link(observer)` executed by user code: supervisor(a) = observer, a in children(observer)"""
+        st.cells[st.ghost[('mutex_inner', 'a_supervisor')]] = models_std.some(self.obs_cell)
+        key = Enum('ActorId', 'Local', 0, (self.I.mk_int(1, 'u64'),))
+        st.cells[st.ghost[('mutex_inner', 'obs_children')]] = models_std.some(Agg('HashMap', (Agg('()', (key, self.cell)),)))
+        st.emit('FX', 'pre_start_links_observer')
+
+    def child_of_obs(self, st):
+        v = st.cells[st.ghost[('mutex_inner', 'obs_children')]]
+        return v.variant == 'Some' and len(v.fields[0].fields) > 0
 
     def child_of_sup(self, st):
         v = st.cells[st.ghost[('mutex_inner', 'sup_children')]]
